@@ -7,6 +7,12 @@ transaction's OWN id on both paths (not the sequence id that retried attempts sh
 policies obtained to `DispatchOnRequest` / `DispatchOnResponse`.  The accessor is the level-1 model
 (`Model/C11.lean`); the clock does not advance at this level.
 
+The third consumer of the pinned version is the diagnosis leg: `DispatchOnResponse` hands the finished
+transaction to the `DiagnosisWorker` (runner/diagnosis_worker.go), whose goroutine later resolves the
+policies again by `GetTxnPoliciesData(TxnID(taskKey))` - per task, under the task's own id - and runs the
+diagnoses of THAT version (`drain`).  When it runs (backlog, reloads in between) is arbitrary: `diag` is an
+ordinary op.
+
 What makes the version used observable (the "lens", mirrored by the policies the harness loads for
 label `k`): on the request path a global account-orchestration remedy stamps the label on the request;
 on the response path a global retry remedy (`services/remedies/retry_plugin.go`; attempts 3, multiplier
@@ -35,24 +41,43 @@ def retryLens (retry : List (Nat × (Nat × Nat))) (k id seq status : Nat) :
   else (eraseAll [seq] retry, none)   -- "ensure cache is cleared in case retry is not required"
 
 structure GSt where
-  acc    : St
-  loaded : Nat                         -- label of loaded-policies.yaml (last applied reload)
-  retry  : List (Nat × (Nat × Nat))    -- RetryPlugin cache
+  acc     : St
+  loaded  : Nat                         -- label of loaded-policies.yaml (last applied reload)
+  retry   : List (Nat × (Nat × Nat))    -- RetryPlugin cache
+  seen    : List Nat := []              -- DiagnosisWorker.diagnosisCache: ids whose request is stored
+  pending : List Nat := []              -- DiagnosisWorker.diagnosisData: task keys queued (FIFO)
 deriving Repr
 
 def ginit (cfg : Cfg) (t0 : Nat) : GSt := { acc := init cfg t0, loaded := cfg.d0, retry := [] }
+
+/-- What the diagnosis lens shows of policies `k`: the metrics-collector diagnosis records request
+    header `x-dg-<k % 10>`. -/
+def diagLens (k : Nat) : Nat := k % 10
+
+/-- Labels `≥ 1000` are the diagnosis-free variant of label `k - 1000` (`/revert_to_diagnosis_free` applies the
+    last loaded policies with every diagnosis stripped): same remedies and accounts, no diagnosis. -/
+def hasDiag (k : Nat) : Bool := decide (k < 1000)
+
+/-- What the request stamp shows of policies `k` (the account token does not tell the two variants apart). -/
+def stampLens (k : Nat) : Nat := k % 1000
+
+def labelHasDiag : Option Nat → Bool
+  | some k => hasDiag k
+  | none => false
 
 inductive GOp where
   | req (id seq : Nat)                 -- lunar-on-request
   | resp (id seq status : Nat)         -- lunar-on-response
   | reload (k : Nat) (ok : Bool)       -- POST /apply_policies (ok = false: the file is rejected)
-  | revert                             -- POST /revert_to_last_loaded | /revert_to_diagnosis_free
+  | revert (free : Bool)               -- POST /revert_to_last_loaded | /revert_to_diagnosis_free (free)
+  | diag                               -- the DiagnosisWorker goroutine works off everything queued
 deriving Repr, DecidableEq
 
 inductive GEv where
   | req (id seq : Nat) (ver : Option Nat)             -- label stamped on the request
   | resp (id seq status : Nat) (retry : Option Nat)   -- x-lunar-retry-after, if any
-  | reload (k : Nat)                                  -- applied reload
+  | reload (k : Nat)                                  -- applied reload / revert (policies of label k)
+  | diag (id : Nat) (r : Option Nat)                  -- exported diagnosis record of transaction `id`
 deriving Repr, DecidableEq
 
 /-- `GetTxnPoliciesData(id)`: the accessor step and the data it returned. -/
@@ -61,21 +86,41 @@ def lookupLabel (cfg : Cfg) (a : St) (id : Nat) : St × Option Nat :=
   | (a', some (.lookup _ _ r)) => (a', r)
   | (a', _) => (a', none)
 
-def gstep (cfg : Cfg) (g : GSt) : GOp → GSt × Option GEv
+/-- `DiagnosisWorker.diagnosisWorker`: for every queued task key, `GetTxnPoliciesData(TxnID(taskKey))`
+    - keyed by the task's OWN transaction id, resolved per task - then `RunTask`, which exports a record
+    when the request of that transaction is in the worker's cache. -/
+def drain (cfg : Cfg) (seen : List Nat) : St → List Nat → St × List GEv
+  | a, [] => (a, [])
+  | a, id :: rest =>
+    let (a', r) := lookupLabel cfg a id
+    let (a'', evs) := drain cfg seen a' rest
+    -- RunTask exports a record when the request is cached and the policies resolved have a diagnosis
+    (a'', if seen.contains id && labelHasDiag r then .diag id (r.map diagLens) :: evs else evs)
+
+def gstep (cfg : Cfg) (g : GSt) : GOp → GSt × List GEv
   | .req id seq =>
     let (a', r) := lookupLabel cfg g.acc id          -- keyed by args.ID
-    ({ g with acc := a' }, some (.req id seq r))
+    -- shouldDiagnose (the policies obtained have an enabled diagnosis) ⇒ AddRequestToTask
+    ({ g with acc := a', seen := if labelHasDiag r then id :: g.seen else g.seen },
+     [.req id seq (r.map stampLens)])
   | .resp id seq status =>
     let (a', r) := lookupLabel cfg g.acc id          -- keyed by args.ID
     match r with
-    | none => ({ g with acc := a' }, some (.resp id seq status none))   -- empty policies: no remedy runs
+    | none => ({ g with acc := a' }, [.resp id seq status none])   -- empty policies: nothing runs
     | some k =>
       let (rt, out) := retryLens g.retry k id seq status
-      ({ g with acc := a', retry := rt }, some (.resp id seq status out))
+      -- shouldDiagnose ⇒ AddResponseToTask, NotifyTaskReady(id)
+      ({ g with acc := a', retry := rt, pending := if hasDiag k then g.pending ++ [id] else g.pending },
+       [.resp id seq status out])
   | .reload k true =>
-    ({ g with acc := (step cfg g.acc (.update k true)).1, loaded := k }, some (.reload k))
-  | .reload _ false => (g, none)
-  | .revert => ({ g with acc := (step cfg g.acc (.update g.loaded true)).1 }, none)
+    ({ g with acc := (step cfg g.acc (.update k true)).1, loaded := k }, [.reload k])
+  | .reload _ false => (g, [])
+  | .revert free =>
+    let k := g.loaded + (if free then 1000 else 0)
+    ({ g with acc := (step cfg g.acc (.update k true)).1 }, [.reload k])
+  | .diag =>
+    let (a', evs) := drain cfg g.seen g.acc g.pending
+    ({ g with acc := a', pending := [] }, evs)
 
 def grunSt (cfg : Cfg) : GSt → List GOp → GSt
   | g, [] => g
@@ -84,9 +129,6 @@ def grunSt (cfg : Cfg) : GSt → List GOp → GSt
 /-- Observable history (oldest first). -/
 def grun (cfg : Cfg) : GSt → List GOp → List GEv
   | _, [] => []
-  | g, o :: os =>
-    match (gstep cfg g o).2 with
-    | some e => e :: grun cfg (gstep cfg g o).1 os
-    | none => grun cfg (gstep cfg g o).1 os
+  | g, o :: os => (gstep cfg g o).2 ++ grun cfg (gstep cfg g o).1 os
 
 end LunarVerif.C11
